@@ -33,6 +33,7 @@ def plan(tier, seed):
         for t in TREES:
             parts = 4 if k == 'moveaxis' else 1
             cases += [{'op': k, 'leafs': t, 'part': [p, parts]} for p in range(parts)]
+        cases += [{'op': k, 'leafs': [l], 'part': [0, 1]} for l in ([0], [0, 3], [2, 0], [1, 0, 2])]   # empty leaves are legal shapes
     pair_trees = [[[2, 3, 2], [2, 3, 2, 2]], [[2, 3], [2, 3, 2]], [[2, 2], [2, 2, 2]]] + ([[[3, 2, 2], [2, 2]], [[2, 1, 3], [2, 3, 1, 2]]] if tier == 'thorough' else [])
     pairs = [{'pairs': t, 'part': [p, 8]} for t in pair_trees for p in range(8)]
     pairs += [{'pairs2': [2, 3, 4], 'part': [p, 16]} for p in range(16)]   # two-axis moves, every pairing, on one rank-3 leaf
@@ -90,7 +91,7 @@ def run(phase, cases, ctx):
         try:
             op = build()
             built = True
-        except (ValueError, TypeError, IndexError):
+        except (ValueError, TypeError, IndexError, ZeroDivisionError):
             built = False
         except Exception as e:  # noqa: BLE001
             violations.append({'kind': 'unexpected-exception', 'case': one, 'detail': f'{type(e).__name__}: {e}'})
@@ -269,6 +270,8 @@ def run(phase, cases, ctx):
                     for i in range(len(t)):
                         targets.add(t[:i] + (-1,) + t[i + 1:])
                 targets |= {(size + 1,), (-1, size + 1), (-1, -1), (-2, size), (-1, -2)}
+                if size == 0:   # target shapes of empty leaves spell out a zero
+                    targets |= {(0,), (3, 0), (0, 3), (0, -1), (-1, 0), (0, 1), (2, 0), (-1, 3), (1,), (1, 0, 2), (2, 0, 1), (0, 0), (-1, 2, 0)}
                 for k in range(2, size + 2):   # known sizes that fit in the leaf but may not divide it
                     targets |= {(k, -1), (-1, k), (1, k, -1)}
             for t in sorted(targets):
